@@ -4,6 +4,8 @@ import IofloModel.Drv.Proto
 driver for the RemoteStack index model (names and host addresses: alphanumeric tokens, `_` = the empty string)
 
   init <puid> <uid|~> <name|~> <ha|~>     a new stack (local device fields given or defaulted)
+  initpre <puid> <uid|~> <name|~> <ha|~> <uid,name,ha;…> <uid:obj,…> <name:obj,…> <ha:obj,…>
+                                          a stack constructed with caller-supplied, already populated indexes
   initip …                                the same with an IpLocalDevice; createip … = IpRemoteDevice(stack, …)
   create <uid|~> <name|~> <ha|~>          RemoteDevice(stack, …)          → ref <object>
   add r | move r <uid> | rename r <name> | reha r <ha> | remove r | removeall
@@ -52,6 +54,19 @@ def fmtOut : Out → String
   | .crashed e => "ERR " ++ (match e with | .KeyError => "KeyError" | .IndexError => "IndexError" | .ValueError => "ValueError" | .TypeError => "TypeError" | .AttributeError => "AttributeError")
   | .bad => "bad-op"
 
+def semiList (s : String) : List String := if s == "-" then [] else s.splitOn ";"
+def commaList (s : String) : List String := if s == "-" then [] else s.splitOn ","
+
+def dev? (s : String) : Option (Dev String String) :=
+  match s.splitOn "," with
+  | [u, n, h] => do let u ← u.toNat?; let n ← str? n; let h ← str? h; some ⟨u, n, h⟩
+  | _ => none
+
+def entry? {α : Type} (key? : String → Option α) (s : String) : Option (α × Nat) :=
+  match s.splitOn ":" with
+  | [k, r] => do let k ← key? k; let r ← r.toNat?; some (k, r)
+  | _ => none
+
 def op? : List String → Option (Ioflo.Remotes.Op String String)
   | ["create", u, n, h] => do let u ← optNat? u; let n ← optStr? n; let h ← optStr? h; some (.create u n h)
   | ["createip", u, n, h] => do let u ← optNat? u; let n ← optStr? n; let h ← optStr? h; some (.createIp u n h)
@@ -71,6 +86,14 @@ def step (s : S) (line : String) : S × String :=
       let s' := init defaultName defaultHa p u n h
       (s', "ok | " ++ dump s')
     | _, _, _, _ => (s, "bad-op")
+  | ["initpre", p, u, n, h, ds, us, ns, hs] =>
+    match p.toNat?, optNat? u, optStr? n, optStr? h, (semiList ds).mapM dev?,
+          (commaList us).mapM (entry? String.toNat?), (commaList ns).mapM (entry? str?),
+          (commaList hs).mapM (entry? str?) with
+    | some p, some u, some n, some h, some ds, some us, some ns, some hs =>
+      let s' := initWith defaultName defaultHa p u n h ds us ns hs
+      (s', "ok | " ++ dump s')
+    | _, _, _, _, _, _, _, _ => (s, "bad-op")
   | ["initip", p, u, n, h] =>
     match p.toNat?, optNat? u, optStr? n, optStr? h with
     | some p, some u, some n, some h =>
